@@ -84,6 +84,19 @@ def value_calls(orc):
         out.append((("val", loc, 6.25), "assign value to " + G.locstr(loc)))
     for loc in free[:2]:
         out.append((("iop", loc, "+=", 1.5), "in-place on value location " + G.locstr(loc)))
+    # members that no task reads one by one (a task may read their container as a whole) ...
+    for loc in (("l", 2), ("n", "z")):
+        if loc not in orc.defs and (("val", loc, 6.25), "assign value to " + G.locstr(loc)) not in out:
+            out.append((("val", loc, 6.25), "assign value to " + G.locstr(loc)))
+    # ... and a whole container (it has no expression of its own) replaced by value; members that are expression-defined keep the value
+    # their expression gives, so the pull-model oracle applies to every location
+    for cl in G.CLOCS:
+        cur = orc.value(cl)
+        if isinstance(cur, dict):
+            new = {k: (v if cl + (k,) in orc.defs else 0.5 + i) for i, (k, v) in enumerate(cur.items())}
+        else:
+            new = [(v if cl + (i,) in orc.defs else 0.5 + i) for i, v in enumerate(cur)]
+        out.append((("val", cl, new), "assign a plain value to the whole container " + G.locstr(cl)))
     return out
 
 
@@ -246,6 +259,19 @@ def main():
                 rac.exhaustive = False
                 break
             run_one(rac, list(hist))
+    calpha = list(G.CONTAINER_OPS) + [("expr", ("n", "x"), "dbl", (("a",),)), ("expr", ("l", 0), "rsub", (("b",),)), ("val", ("a",), 5.0)]
+    LC = 2 if quick else 3
+    rac.section("frozen-containers", f"the same checks on every history of length <= {LC} over {len(calpha)} operations around containers read as a whole "
+                "(f.tot(d['n']), f.tot(d['l']) through a function reference; members defined by expressions; containers replaced by value): while frozen, "
+                "plain values are assigned to members nobody reads one by one and to the whole containers (which have no expression of their own, also "
+                "when one of their members has) -- accepted, dependants updated, definitions unchanged", f"length<={LC}, |alphabet|={len(calpha)}")
+    for n in range(1, LC + 1):
+        for hist in itertools.product(calpha, repeat=n):
+            if n > 1 and rac.out_of_time(0.8):
+                rac.sections["frozen-containers"]["exhaustive"] = False
+                rac.exhaustive = False
+                break
+            run_one(rac, list(hist))
     rac.section("freeze-sequences", "every sequence of <= 4 freeze_tree / unfreeze_tree calls (balanced or not) on a manager with one definition: "
                 "the manager is frozen exactly when the LAST call was freeze_tree -- graph-changing calls raise ValueError then and succeed "
                 "otherwise; plain-value assignments propagate in both cases", "30 sequences")
@@ -274,7 +300,7 @@ def main():
     for _ in range(40 if quick else 600):
         if rac.out_of_time(0.95):
             break
-        run_one(rac, G.random_history(rac.rng, rac.rng.randint(4, 10)))
+        run_one(rac, G.random_history(rac.rng, rac.rng.randint(4, 10), containers=bool(_ % 2)))
     return rac.finish()
 
 
